@@ -53,12 +53,12 @@ fn ax_sin(x: f64) -> f64 {
 }
 /// d0h_lh_in_d0c: base cell < 12, (l, h) inside the base-cell diamond |l| <= min(h, 2-h), h in [0,2],
 /// base-cell row consistent with the latitude region, for all lon in [-200,200], lat in [-pi/2,pi/2].
-#[kani::proof] #[kani::stub(f64::cos, ax_cos)] #[kani::stub(f64::sin, ax_sin)] fn hash_trig_contract_eqr() { trig_contract(0, false) }
-#[kani::proof] #[kani::stub(f64::cos, ax_cos)] #[kani::stub(f64::sin, ax_sin)] fn hash_trig_contract_npc() { trig_contract(1, false) }
-#[kani::proof] #[kani::stub(f64::cos, ax_cos)] #[kani::stub(f64::sin, ax_sin)] fn hash_trig_contract_spc() { trig_contract(2, false) }
-#[kani::proof] #[kani::stub(f64::cos, ax_cos)] #[kani::stub(f64::sin, ax_sin)] fn hash_trig_oracle_eqr() { trig_contract(0, true) }
-#[kani::proof] #[kani::stub(f64::cos, ax_cos)] #[kani::stub(f64::sin, ax_sin)] fn hash_trig_oracle_npc() { trig_contract(1, true) }
-#[kani::proof] #[kani::stub(f64::cos, ax_cos)] #[kani::stub(f64::sin, ax_sin)] fn hash_trig_oracle_spc() { trig_contract(2, true) }
+#[kani::proof] #[kani::stub(f64::cos, ax_cos)] #[kani::stub(f64::sin, ax_sin)] fn hash_trig_contract_eqr() { trig_plain(0) }
+#[kani::proof] #[kani::stub(f64::cos, ax_cos)] #[kani::stub(f64::sin, ax_sin)] fn hash_trig_contract_npc() { trig_plain(1) }
+#[kani::proof] #[kani::stub(f64::cos, ax_cos)] #[kani::stub(f64::sin, ax_sin)] fn hash_trig_contract_spc() { trig_plain(2) }
+#[kani::proof] #[kani::stub(f64::cos, ax_cos)] #[kani::stub(f64::sin, ax_sin)] fn hash_trig_oracle_eqr() { trig_oracle(0) }
+#[kani::proof] #[kani::stub(f64::cos, ax_cos)] #[kani::stub(f64::sin, ax_sin)] fn hash_trig_oracle_npc() { trig_oracle(1) }
+#[kani::proof] #[kani::stub(f64::cos, ax_cos)] #[kani::stub(f64::sin, ax_sin)] fn hash_trig_oracle_spc() { trig_oracle(2) }
 /// base-cell identity alone (integers only): in the equatorial region the returned base cell is one
 /// of the four cells meeting the longitude quarter of the point: NPC q, SPC q+8, EQR 4+q, EQR 4+((q+1)&3)
 #[kani::proof] #[kani::stub(f64::cos, ax_cos)] #[kani::stub(f64::sin, ax_sin)]
@@ -86,7 +86,9 @@ fn hash_trig_quadrant_eqr() {
   else if x <= y && x < -y { assert!(d0h == 4 + q, "C01 west quadrant -> the equatorial base cell west of the quarter"); }
   else { assert!(d0h == q + 8, "C01 south quadrant -> south polar base cell q + 8"); }
 }
-fn trig_contract(region: u8, oracle: bool) {
+// the plain contract and the oracle are separate functions: covers of a part a harness does not call
+// would be reported UNREACHABLE for it
+fn trig_base(region: u8) -> (f64, u8, f64, f64) {
   let lon: f64 = kani::any(); let lat: f64 = kani::any();
   kani::assume(lon >= -200.0 && lon <= 200.0 && lat >= -HALF_PI && lat <= HALF_PI);
   match region { 0 => kani::assume(lat >= -TRANSITION_LATITUDE && lat <= TRANSITION_LATITUDE), 1 => kani::assume(lat > TRANSITION_LATITUDE), _ => kani::assume(lat < -TRANSITION_LATITUDE) }
@@ -101,11 +103,15 @@ fn trig_contract(region: u8, oracle: bool) {
   assert!(u <= 2.0 && v <= 2.0, "C01 rotated coordinates do not exceed the base-cell size");
   if lat > TRANSITION_LATITUDE { assert!(d0h < 4 && h >= 1.0, "C01 north cap -> north polar base cell, upper half"); }
   if lat < -TRANSITION_LATITUDE { assert!(d0h >= 8 && h <= 1.0, "C01 south cap -> south polar base cell, lower half"); }
-  if !oracle {
-    kani::cover!(region != 0 || (d0h >= 4 && d0h < 8), "equatorial base cell");
-    kani::cover!(lon < 0.0, "negative longitude");
-    return;
-  }
+  (lon, d0h, l, h)
+}
+fn trig_plain(region: u8) {
+  let (lon, d0h, _l, _h) = trig_base(region);
+  kani::cover!(region != 0 || (d0h >= 4 && d0h < 8), "equatorial base cell");
+  kani::cover!(lon < 0.0, "negative longitude");
+}
+fn trig_oracle(region: u8) {
+  let (lon, d0h, l, h) = trig_base(region);
   // ORACLE (integer geometry of the projection plane, independent of the quadrant logic): in the
   // frame of the longitude quarter q the point is at X = 2q + 1 + x_pm1 (mod 8), Y = y_pm1 (resp. the
   // Collignon ordinate); (l, h - 1) must be exactly that position relative to the centre of base cell d0h.
